@@ -335,8 +335,11 @@ def main(argv=None):
             nontriv = getattr(mod, "nontrivial", default_nontrivial)
             for line in open(cases_path):
                 if line.startswith("#STAT "):
-                    _, k, v = line.split()
-                    stats[k] = stats.get(k, 0) + int(v)
+                    try:
+                        k, v = line[6:].rstrip().rsplit(" ", 1)
+                        stats[k] = stats.get(k, 0) + int(v)
+                    except ValueError:
+                        pass
             n = 0
             for line in open(impl_path):
                 i = line.find(" | ")
